@@ -37,6 +37,7 @@ enum CallKind {
   K_IN,      // read from the simulated stdin
   K_EXIT,
   K_TIME,
+  K_LIBC,  // any other libc function called from real code: a preemption point only, never refused
   K_N
 };
 const char *call_name(int k);
@@ -112,6 +113,9 @@ void set_cur_ctx(OpCtx *c);
 // Execute fn(arg) as real code: wrappers are live, faults/hangs/exit unwind to here.
 // Returns J_NONE or the jump code.
 int run_in_lib(OpCtx *c, void (*fn)(void *), void *arg, long step_budget);
+// caller threads bracket their life with these (scopes ThreadSanitizer to library execution)
+void sim_thread_begin();
+void sim_thread_end();
 
 // ---- arena / islands -------------------------------------------------------------------
 enum IslandKind { IS_FREE = 0, IS_EXT, IS_ANON, IS_FILEMAP, IS_BEHIND };
